@@ -2,7 +2,7 @@
   Spec/SchemaFrag.lean — the decidable predicates that delimit what the C08 theorems cover.
 
   * `fragF` / `inSchemaFragment`: declaration-level fragment of `schema_admits_partial`.  Every
-    excluded kind is named here:
+    excluded kind is named here (classes with defaults are inside: the validator ignores `default`):
       - Deque / Anything / NoneField / non-String map keys / non-scalar enum literals: the mapping raises;
       - `multiplesOf = 0`;
       - OneOf / AllOf / NotField (need the exactness direction), AnyOf over non-scalar options:
@@ -61,8 +61,8 @@ def fragF : FieldDecl → Bool
   | .tuplePos fs _ => !fs.isEmpty && fragL fs
   | .mapAny _ => true
   | .mapOf k v _ => isStringField k && fragF v
-  | .struct _ fields defaults =>
-    nodupS (fields.map (·.1)) && defaults.isEmpty && fragP fields
+  | .struct _ fields _ =>
+    nodupS (fields.map (·.1)) && fragP fields
   | .anyOf fs =>
     if optShape fs then fragOpt fs else !fs.isEmpty && fs.all plainScalar && fragL fs
   | .oneOf _ => false
@@ -434,7 +434,7 @@ def requiredFaithful (km : KeyMap) (c : ClassOpts) (defaults : List (String × P
 def renameSafe (km : KeyMap) (cls : FieldDecl) (j : PyVal) : Bool :=
   match cls, j with
   | .struct c fields defaults, .dict r =>
-    injOnB km (fields.map (·.1) ++ docKeys r) && requiredFaithful km c defaults (fields.map (·.1))
+    defaults.isEmpty && injOnB km (fields.map (·.1) ++ docKeys r) && requiredFaithful km c defaults (fields.map (·.1))
   | _, _ => false
 
 /-! ### exact sub-fragment -/
